@@ -148,7 +148,13 @@ func registerIntoAt(r0 *rux.Router, defs []refmodel.RouteDef, via []string, rout
 					rec.params = canonParams(c.Params)
 					rec.n++
 				}
-				c.WriteString(fmt.Sprintf("%d|%s", i, canonParams(c.Params)))
+				body := fmt.Sprintf("%d|%s", i, canonParams(c.Params))
+				// a value this handler stored during an EARLIER request must never be visible now
+				if c.SafeGet("verif-harness-mark") != nil {
+					body += "|CONTEXT-DATA-OF-AN-EARLIER-REQUEST"
+				}
+				c.Set("verif-harness-mark", i)
+				c.WriteString(body)
 			}
 			api := ""
 			if i < len(via) {
